@@ -77,6 +77,14 @@ pub fn run_in_child(req: &RunRequest, f: ScenarioFn, wall_limit: Duration) -> Ru
         // ---- child ----
         unsafe { libc::close(fds[0]) };
         let wfd = fds[1];
+        // A decoder or task that spins is caught by CPU time (robust against the
+        // whole machine being paused or overloaded); the wall clock is only a
+        // backstop against real blocking.
+        let cpu = libc::rlimit {
+            rlim_cur: wall_limit.as_secs().max(1),
+            rlim_max: wall_limit.as_secs().max(1) + 5,
+        };
+        unsafe { libc::setrlimit(libc::RLIMIT_CPU, &cpu) };
         crate::shims::REPORT_FD.store(wfd, std::sync::atomic::Ordering::SeqCst);
         let req2 = req.clone();
         let stack = crate::harness::SIM_STACK_BYTES;
@@ -115,7 +123,7 @@ pub fn run_in_child(req: &RunRequest, f: ScenarioFn, wall_limit: Duration) -> Ru
     unsafe { libc::close(fds[1]) };
     let rfd = fds[0];
     let mut out: Vec<u8> = Vec::new();
-    let deadline = started + wall_limit;
+    let deadline = started + wall_limit * 4;
     let mut timed_out = false;
     loop {
         let now = Instant::now();
@@ -177,7 +185,15 @@ pub fn run_in_child(req: &RunRequest, f: ScenarioFn, wall_limit: Duration) -> Ru
         RunResult {
             status: "timeout".into(),
             oracle: "harness.wall_clock".into(),
-            msg: format!("child exceeded {} s of wall clock (busy loop or real block)", wall_limit.as_secs()),
+            msg: format!("child exceeded {} s of wall clock (real block)", wall_limit.as_secs() * 4),
+            report: report.unwrap_or(json!({})),
+            wall_ms,
+        }
+    } else if signaled && sig == libc::SIGXCPU {
+        RunResult {
+            status: "timeout".into(),
+            oracle: "harness.cpu_time".into(),
+            msg: format!("child burnt more than {} s of CPU (busy loop)", wall_limit.as_secs()),
             report: report.unwrap_or(json!({})),
             wall_ms,
         }
@@ -390,7 +406,15 @@ pub fn run_batch(
                     trace: false,
                     seed_override: None,
                 };
-                let res = run_in_child(&req, f, wall_limit);
+                let mut res = run_in_child(&req, f, wall_limit);
+                if res.status == "timeout" {
+                    // Confirm by replaying the same seed before believing it.
+                    let again = run_in_child(&req, f, wall_limit);
+                    if again.status != "timeout" {
+                        agg.timeouts_not_confirmed += 1;
+                    }
+                    res = again;
+                }
                 agg.add(&req, &res);
                 if res.status != "ok" {
                     lines.push(
